@@ -6,6 +6,8 @@ import Astm.Model.TreeWire
 import Astm.Model.Lims
 import Astm.Model.Simulator
 import Astm.Model.Archive
+import Astm.Model.Fields
+import Astm.Generated.Schemas
 
 open Astm Astm.Wire
 
@@ -72,6 +74,22 @@ def showAct : Act → String
       | .getVersion => "V" | .getUser => "U" | .postPush => "P")
   | .sleep d => s!"S{d}"
 
+open Astm.Fields in
+def showV (v : V) : String := match v with | none => "n" | some s => "t" ++ cpsOf s
+
+open Astm.Fields in
+def showKvs (kvs : List (String × V)) : String := ",".intercalate (kvs.map fun kv => kv.1 ++ "=" ++ showV kv.2)
+
+open Astm.Fields in
+def showFV : FV → String
+  | .scalar v => showV v
+  | .comp kvs => "c(" ++ showKvs kvs ++ ")"
+  | .rep items => "r(" ++ ";".intercalate (items.map showKvs) ++ ")"
+
+def findRecordSpec (modName letter : String) : Option Astm.Schema.RecordSpec := do
+  let m ← Astm.Gen.schemas.find? (·.name == modName)
+  m.records.find? (·.letter == letter)
+
 def showConn (s : Conn) : String :=
   s!"{if s.inTransfer then 1 else 0} [{",".intercalate (s.chunks.map toHex)}] [{",".intercalate (s.messages.map toHex)}]"
 
@@ -126,6 +144,12 @@ def handle (toks : List String) : String :=
       "ok " ++ " ; ".intercalate (outs.map showTOut) ++ " | " ++ ",".intercalate live
     | _, _ => "bad-arg"
   | ["default-timeout"] => s!"ok {TIMEOUT}"
+  | ["wrap", modName, letter, now, rec] =>
+    match findRecordSpec modName letter, parseCps now, parseRecord rec with
+    | some S, some nowS, some r => match Astm.Fields.wrap S nowS r with
+      | .ok d => "ok " ++ " ".intercalate (d.map fun kv => kv.1 ++ ":" ++ showFV kv.2)
+      | .error e => errStr e
+    | _, _, _ => "bad-arg"
   | "arch" :: toks =>
     -- F:<stamp>.<k>:<hex>  pre-existing file;  M:<hex> message of the next writer;  C:<w>.<now> readClock;  S:<w> step
     let parseName := fun (t : String) => match t.splitOn "." with
